@@ -432,6 +432,461 @@ Section UpdateProofs.
   Qed.
 End UpdateProofs.
 
+(* ================================================================== the link with Model/Accum.v *)
+Lemma all_accum_ok_repaired : all_accum_ok repaired = true.
+Proof. vm_compute. reflexivity. Qed.
+
+Lemma accum_ok_repaired f vl : accum_ok repaired f vl = true.
+Proof.
+  pose proof all_accum_ok_repaired as H. unfold all_accum_ok in H.
+  rewrite forallb_forall in H. specialize (H f (in_all_families f)).
+  rewrite forallb_forall in H. exact (H vl (in_all_valuations vl)).
+Qed.
+
+Lemma nodupb_NoDup l : nodupb l = true -> NoDup l.
+Proof.
+  induction l as [|x r IH]; intros H; [constructor|]. cbn in H. apply andb_true_iff in H. destruct H as [H1 H2].
+  constructor; [|auto]. intros Hin. apply negb_true_iff in H1.
+  assert (existsb (Nat.eqb x) r = true) by (apply existsb_exists; exists x; split; [exact Hin|apply Nat.eqb_refl]).
+  congruence.
+Qed.
+
+Lemma list_eqb_nat_eq l1 : forall l2, list_eqb Nat.eqb l1 l2 = true -> l1 = l2.
+Proof.
+  induction l1 as [|x r IH]; intros [|y s] H; cbn in H; try discriminate; [reflexivity|].
+  apply andb_true_iff in H. destruct H as [H1 H2]. apply Nat.eqb_eq in H1. f_equal; auto.
+Qed.
+
+Section Link.
+  Variables (C R O : Type).
+  Variable czero : C.
+  Variable cplus : C -> C -> C.
+  Variable ccontrib : nat -> R -> C.
+  Variable ccomp : Z -> list C -> O.
+
+  Notation batch := (batch R).
+  Notation ostate := (ostate C).
+  Notation mstate := (mstate C).
+  Notation exec := (exec C R czero cplus ccontrib).
+  Notation update := (update C R czero cplus ccontrib).
+  Notation heap_write := (heap_write C R czero cplus ccontrib).
+  Notation kernel_write := (kernel_write C R czero cplus ccontrib).
+  Notation cbsum := (cbsum C R czero cplus ccontrib).
+  Notation acc_of := (acc_of C R czero cplus ccontrib).
+  Notation one_shot := (one_shot C R czero cplus ccontrib).
+  Notation wf_batch := (wf_batch R).
+  Notation wf_op := (wf_op R).
+  Notation rows_of_op := (rows_of_op C R czero cplus ccontrib).
+  Notation rows_of_hist := (rows_of_hist C R O czero cplus ccontrib ccomp).
+
+  (* one in-place write of accumulator k when the names are bound to the cells base, base+1, ... *)
+  Definition wstep (base : nat) (rows : list R) (h : list C) (k : nat) : list C :=
+    set_nth (base + k) (cplus (nth (base + k) h czero) (cbsum k rows)) h.
+
+  Lemma wstep_length base rows h k : List.length (wstep base rows h k) = List.length h.
+  Proof. apply set_nth_length. Qed.
+
+  Lemma fold_wstep_length base rows ws : forall h, List.length (fold_left (wstep base rows) ws h) = List.length h.
+  Proof. induction ws as [|k ws IH]; intros h; cbn; [reflexivity|]. rewrite IH. apply wstep_length. Qed.
+
+  Lemma fold_wstep_nth base rows n ws : forall h,
+    NoDup ws -> (forall k, In k ws -> k < n) -> base + n <= List.length h ->
+    forall i, i < n ->
+    nth (base + i) (fold_left (wstep base rows) ws h) czero =
+    if existsb (Nat.eqb i) ws then cplus (nth (base + i) h czero) (cbsum i rows) else nth (base + i) h czero.
+  Proof.
+    induction ws as [|k ws IH]; intros h Hnd Hlt Hlen i Hi; cbn [fold_left existsb]; [reflexivity|].
+    inversion Hnd as [|? ? Hnotin Hnd']; subst.
+    rewrite IH; auto.
+    - destruct (Nat.eqb_spec i k) as [->|Hne].
+      + cbn [orb].
+        assert (Hex : existsb (Nat.eqb k) ws = false).
+        { destruct (existsb (Nat.eqb k) ws) eqn:E; [|reflexivity]. apply existsb_exists in E. destruct E as (x & Hx & Ex).
+          apply Nat.eqb_eq in Ex. subst. contradiction. }
+        rewrite Hex. unfold wstep. rewrite nth_set_nth_eq; [reflexivity|].
+        assert (k < n) by (apply Hlt; now left). lia.
+      + cbn [orb]. unfold wstep at 1 2. rewrite !nth_set_nth_neq by lia. reflexivity.
+    - intros j Hj. apply Hlt. now right.
+    - rewrite wstep_length. exact Hlen.
+  Qed.
+
+  Definition accs_at (base n : nat) : list (option nat) := map Some (seq base n).
+
+  Lemma nth_accs_at base n k : k < n -> nth k (accs_at base n) None = Some (base + k).
+  Proof.
+    intros Hk. unfold accs_at. rewrite nth_indep with (d' := Some 0) by (rewrite map_length, seq_length; exact Hk).
+    rewrite map_nth. rewrite seq_nth by exact Hk. reflexivity.
+  Qed.
+
+  Lemma heap_write_at base n k (b : batch) s h :
+    accs s = accs_at base n -> k < n -> heap_write k b s h = Some (wstep base (b_rows b) h k).
+  Proof. intros Ha Hk. unfold Update.heap_write. rewrite Ha, nth_accs_at by exact Hk. reflexivity. Qed.
+
+  Lemma kernel_write_at base n (b : batch) s ks : forall h,
+    accs s = accs_at base n -> (forall k, In k ks -> k < n) ->
+    kernel_write ks b s h = Some (fold_left (wstep base (b_rows b)) ks h).
+  Proof.
+    induction ks as [|k ks IH]; intros h Ha Hlt; cbn; [reflexivity|].
+    rewrite (heap_write_at base n) by (auto; apply Hlt; now left). apply IH; auto. intros j Hj. apply Hlt. now right.
+  Qed.
+
+  (* ---------------------------------------------------------------- phase 2 *)
+  Lemma exec_writes f (b : batch) base l : forall m m' o,
+    ok2 (nacc f) l = true -> accs (bnd (ms C m)) = accs_at base (nacc f) ->
+    exec f b l m = (m', o) ->
+    o = Accepted /\ bnd (ms C m') = bnd (ms C m)
+    /\ heap (ms C m') = fold_left (wstep base (b_rows b)) (writes_of (nacc f) l) (heap (ms C m)).
+  Proof.
+    induction l as [|e l IH]; intros m m' o Hok Ha He; cbn in He.
+    - injection He as <- <-. auto.
+    - cbn [ok2] in Hok. destruct e; try discriminate; cbn [Update.step] in He; cbn [writes_of flat_map].
+      + apply andb_true_iff in Hok. destruct Hok as [Hk Hok]. apply Nat.ltb_lt in Hk.
+        rewrite (heap_write_at base (nacc f)) in He by auto.
+        destruct (IH _ _ _ Hok (Ha : accs (bnd (ms C (set_heap C m _))) = _) He) as (H1 & H2 & H3).
+        cbn in H2, H3. cbn [app fold_left]. auto.
+      + rewrite (kernel_write_at base (nacc f)) in He; auto.
+        * destruct (IH _ _ _ Hok (Ha : accs (bnd (ms C (set_heap C m _))) = _) He) as (H1 & H2 & H3).
+          cbn in H2, H3. rewrite fold_left_app. auto.
+        * intros k Hk. apply in_seq in Hk. lia.
+      + exact (IH _ _ _ Hok Ha He).
+      + exact (IH _ _ _ Hok Ha He).
+      + exact (IH _ _ _ Hok Ha He).
+  Qed.
+
+  (* ---------------------------------------------------------------- phase 1, with the cells tracked *)
+  Lemma ok2_summaries n l : ok2 n l = true -> allocs_of l = [] /\ bumps_of l = 0 /\ binds_origin l = false.
+  Proof.
+    induction l as [|e l IH]; intros H; [auto|]. cbn [ok2] in H.
+    destruct e; try discriminate; try (apply andb_true_iff in H; destruct H as [_ H]); apply IH in H; exact H.
+  Qed.
+
+  Lemma do_bind_processed f a (b : batch) s : processed (do_bind R f a b s) = processed s.
+  Proof. destruct a; reflexivity. Qed.
+
+  Lemma do_bind_inited f a (b : batch) s :
+    inited (do_bind R f a b s) = inited s || match a with AOrigin => true | _ => false end.
+  Proof. destruct a; cbn; try (rewrite orb_false_r; reflexivity). rewrite orb_true_r. reflexivity. Qed.
+
+  (* the first j accumulator names are bound to the cells base .. base+j-1, which hold X; the others are still to be allocated *)
+  Definition inv_acc (n j base : nat) (X : nat -> C) (m : mstate) : Prop :=
+    List.length (accs (bnd (ms C m))) = n /\ base + j <= List.length (heap (ms C m))
+    /\ (j < n -> List.length (heap (ms C m)) = base + j)
+    /\ forall i, i < j -> nth i (accs (bnd (ms C m))) None = Some (base + i) /\ nth (base + i) (heap (ms C m)) czero = X i.
+
+  Lemma inv_acc_same n j base X m m1 :
+    inv_acc n j base X m -> accs (bnd (ms C m1)) = accs (bnd (ms C m)) -> heap (ms C m1) = heap (ms C m) -> inv_acc n j base X m1.
+  Proof. unfold inv_acc. intros H E1 E2. rewrite E1, E2. exact H. Qed.
+
+  Definition after_write (ws : list nat) (rows : list R) (X : nat -> C) (i : nat) : C :=
+    if existsb (Nat.eqb i) ws then cplus (X i) (cbsum i rows) else X i.
+
+  Lemma exec_mid_strong f (b : batch) base X l : forall m j m',
+    ok1 (nacc f) l = true -> allocs_of l = seq j (nacc f - j) -> j <= nacc f ->
+    (forall i, j <= i -> i < nacc f -> X i = czero) ->
+    NoDup (writes_of (nacc f) l) -> (forall k, In k (writes_of (nacc f) l) -> k < nacc f) ->
+    inv_acc (nacc f) j base X m ->
+    exec f b l m = (m', Accepted) ->
+    accs (bnd (ms C m')) = accs_at base (nacc f)
+    /\ base + nacc f <= List.length (heap (ms C m'))
+    /\ (forall i, i < nacc f -> nth (base + i) (heap (ms C m')) czero = after_write (writes_of (nacc f) l) (b_rows b) X i)
+    /\ processed (bnd (ms C m')) = (processed (bnd (ms C m)) + Z.of_nat (bumps_of l) * b_n b)%Z
+    /\ inited (bnd (ms C m')) = inited (bnd (ms C m)) || binds_origin l.
+  Proof.
+    induction l as [|e l IH]; intros m j m' Hok Hal Hj HX Hnd Hlt Hinv He; [discriminate|].
+    assert (Hwrite : is_write e = true -> ok2 (nacc f) (e :: l) = true ->
+      accs (bnd (ms C m')) = accs_at base (nacc f)
+      /\ base + nacc f <= List.length (heap (ms C m'))
+      /\ (forall i, i < nacc f -> nth (base + i) (heap (ms C m')) czero = after_write (writes_of (nacc f) (e :: l)) (b_rows b) X i)
+      /\ processed (bnd (ms C m')) = (processed (bnd (ms C m)) + Z.of_nat (bumps_of (e :: l)) * b_n b)%Z
+      /\ inited (bnd (ms C m')) = inited (bnd (ms C m)) || binds_origin (e :: l)).
+    { intros _ Hok2. destruct (ok2_summaries _ _ Hok2) as (Ea & Eb & Eo).
+      rewrite Ea in Hal. assert (j = nacc f).
+      { destruct (nacc f - j) eqn:E; [lia|discriminate]. }
+      subst j. destruct Hinv as (Hlen & Hh & _ & Hcells).
+      assert (Haccs : accs (bnd (ms C m)) = accs_at base (nacc f)).
+      { apply nth_ext with (d := None) (d' := None).
+        - unfold accs_at. rewrite map_length, seq_length. exact Hlen.
+        - intros i Hi. rewrite Hlen in Hi. rewrite nth_accs_at by exact Hi. apply Hcells, Hi. }
+      destruct (exec_writes f b base (e :: l) m m' Accepted Hok2 Haccs He) as (_ & Ebnd & Eheap).
+      rewrite Ebnd, Eheap, Eb, Eo. repeat split.
+      - exact Haccs.
+      - rewrite fold_wstep_length. exact Hh.
+      - intros i Hi. rewrite (fold_wstep_nth base (b_rows b) (nacc f)); auto.
+        unfold after_write. destruct (Hcells i Hi) as [_ ->]. reflexivity.
+      - cbn. lia.
+      - rewrite orb_false_r. reflexivity. }
+    cbn [ok1] in Hok.
+    destruct e; try discriminate; try (apply Hwrite; [reflexivity|exact Hok]); cbn [Update.exec Update.step] in He.
+    - destruct (eval_check R f e (bnd (ms C m)) b); [discriminate|]. eapply IH; eauto.
+    - destruct (eval_check R f e (bnd (ms C m)) b); [discriminate|]. eapply IH; eauto.
+    - destruct (eval_check R f e (bnd (ms C m)) b); [discriminate|]. eapply IH; eauto.
+    - (* Bind *)
+match type of He with Update.exec _ _ _ _ _ _ _ _ ?m1 = _ =>
+        assert (Hinv1 : inv_acc (nacc f) j base X m1)
+          by (apply (inv_acc_same _ _ _ _ m m1 Hinv); [cbn; try apply do_bind_accs; reflexivity | reflexivity]) end.
+      specialize (IH _ j m' Hok Hal Hj HX Hnd Hlt Hinv1 He).
+      destruct IH as (I1 & I2 & I3 & I4 & I5). repeat split; auto.
+      + rewrite I4. cbn. rewrite do_bind_processed. reflexivity.
+      + rewrite I5.
+        change (binds_origin (Bind a :: l)) with ((match a with AOrigin => true | _ => false end) || binds_origin l).
+        cbn [Update.set_bnd ms bnd]. rewrite do_bind_inited. rewrite orb_assoc. reflexivity.
+    - (* Shapes *)
+match type of He with Update.exec _ _ _ _ _ _ _ _ ?m1 = _ =>
+        assert (Hinv1 : inv_acc (nacc f) j base X m1)
+          by (apply (inv_acc_same _ _ _ _ m m1 Hinv); [cbn; try apply do_bind_accs; reflexivity | reflexivity]) end.
+      specialize (IH _ j m' Hok Hal Hj HX Hnd Hlt Hinv1 He). exact IH.
+    - (* Alloc *)
+      apply andb_true_iff in Hok. destruct Hok as [Hk Hok]. apply Nat.ltb_lt in Hk.
+      cbn [allocs_of flat_map app] in Hal.
+      assert (Hjn : j < nacc f) by (destruct (nacc f - j) eqn:E; [discriminate|lia]).
+      replace (nacc f - j) with (S (nacc f - S j)) in Hal by lia. cbn [seq] in Hal. injection Hal as Hkj Hal. subst k.
+      destruct Hinv as (Hlen & Hh & Hhl & Hcells). specialize (Hhl Hjn).
+      assert (Hinv' : inv_acc (nacc f) (S j) base X
+                {| ms := {| bnd := do_alloc j (List.length (heap (ms C m))) (bnd (ms C m)); heap := heap (ms C m) ++ [czero] |};
+                   snapshot := snapshot C m |}).
+      { unfold inv_acc. cbn. rewrite set_nth_length, app_length. cbn.
+        split; [exact Hlen|]. split; [lia|]. split; [intros; lia|].
+        intros i Hi. destruct (Nat.eq_dec i j) as [->|Hne].
+        - rewrite nth_set_nth_eq by lia. rewrite Hhl. split; [reflexivity|].
+          rewrite app_nth2 by lia. rewrite Hhl, Nat.sub_diag. cbn. symmetry. apply HX; lia.
+        - rewrite nth_set_nth_neq by exact Hne. assert (Hij : i < j) by lia. destruct (Hcells i Hij) as [H1 H2].
+          split; [exact H1|]. rewrite app_nth1 by lia. exact H2. }
+      specialize (IH _ (S j) m' Hok Hal Hjn (fun i Hi Hi' => HX i ltac:(lia) Hi') Hnd Hlt Hinv' He). exact IH.
+    - (* Bump *)
+match type of He with Update.exec _ _ _ _ _ _ _ _ ?m1 = _ =>
+        assert (Hinv1 : inv_acc (nacc f) j base X m1)
+          by (apply (inv_acc_same _ _ _ _ m m1 Hinv); [cbn; try apply do_bind_accs; reflexivity | reflexivity]) end.
+      specialize (IH _ j m' Hok Hal Hj HX Hnd Hlt Hinv1 He).
+      destruct IH as (I1 & I2 & I3 & I4 & I5). repeat split; auto.
+      rewrite I4. change (bumps_of (Bump :: l)) with (S (bumps_of l)). rewrite Nat2Z.inj_succ, Z.mul_succ_l.
+      cbn [Update.set_bnd ms bnd Update.do_bump processed]. lia.
+    - (* Mark *)
+match type of He with Update.exec _ _ _ _ _ _ _ _ ?m1 = _ =>
+        assert (Hinv1 : inv_acc (nacc f) j base X m1)
+          by (apply (inv_acc_same _ _ _ _ m m1 Hinv); [cbn; try apply do_bind_accs; reflexivity | reflexivity]) end.
+      specialize (IH _ j m' Hok Hal Hj HX Hnd Hlt Hinv1 He). exact IH.
+  Qed.
+
+  (* ---------------------------------------------------------------- phase 0 *)
+  Lemma exec_pre f (b : batch) l : forall st m',
+    ok0 (nacc f) l = true -> exec f b l {| ms := st; snapshot := None |} = (m', Accepted) ->
+    exists l1 sn, ok1 (nacc f) l1 = true /\ allocs_of l1 = allocs_of l /\ writes_of (nacc f) l1 = writes_of (nacc f) l
+      /\ bumps_of l1 = bumps_of l /\ binds_origin l1 = binds_origin l
+      /\ exec f b l1 {| ms := st; snapshot := sn |} = (m', Accepted).
+  Proof.
+    induction l as [|e l IH]; intros st m' Hok He; [discriminate|].
+    cbn [ok0] in Hok. destruct e; try discriminate; cbn [Update.exec Update.step ms snapshot] in He.
+    - destruct (eval_check R f e (bnd st) b); [discriminate|]. exact (IH st m' Hok He).
+    - destruct (eval_check R f e (bnd st) b); [discriminate|]. exact (IH st m' Hok He).
+    - destruct (eval_check R f e (bnd st) b); [discriminate|]. exact (IH st m' Hok He).
+    - exists l, (Some (bnd st, List.length (heap st))). repeat split; auto.
+    - exact (IH st m' Hok He).
+  Qed.
+
+  (* ---------------------------------------------------------------- one accepted update *)
+  Lemma update_accumulates f st (b : batch) st' base X :
+    update repaired f st b = (st', Accepted) ->
+    List.length (accs (bnd st)) = nacc f ->
+    (if inited (bnd st)
+     then accs (bnd st) = accs_at base (nacc f) /\ base + nacc f <= List.length (heap st)
+          /\ (forall i, i < nacc f -> nth (base + i) (heap st) czero = X i)
+     else base = List.length (heap st) /\ forall i, i < nacc f -> X i = czero) ->
+    accs (bnd st') = accs_at base (nacc f) /\ base + nacc f <= List.length (heap st')
+    /\ (forall i, i < nacc f -> nth (base + i) (heap st') czero = cplus (X i) (cbsum i (b_rows b)))
+    /\ processed (bnd st') = (processed (bnd st) + b_n b)%Z /\ inited (bnd st') = true.
+  Proof.
+    intros Hu Hlen Hpre. unfold Update.update in Hu.
+    set (vl := valuation_of R (bnd st) b) in *.
+    set (l := select vl (order repaired f)) in *.
+    destruct (exec f b l {| ms := st; snapshot := None |}) as [m' o'] eqn:He.
+    destruct o' as [|x]; unfold Update.finish in Hu; cbn [snd fst] in Hu; [|discriminate].
+    injection Hu as <-.
+    pose proof (shape_ok_repaired f vl) as Hs. unfold shape_ok in Hs. fold l in Hs.
+    apply andb_true_iff in Hs. destruct Hs as [Hs _]. apply andb_true_iff in Hs. destruct Hs as [Hok0 _].
+    pose proof (accum_ok_repaired f vl) as Ha. unfold accum_ok in Ha. fold l in Ha.
+    repeat (apply andb_true_iff in Ha; destruct Ha as [Ha ?]).
+    rename H into Hmode, H0 into Hbump, H1 into Hwlt, H2 into Hcover. rename Ha into Hnd.
+    destruct (exec_pre f b l st m' Hok0 He) as (l1 & sn & Hok1 & Eal & Ewr & Ebu & Ebo & He1).
+    apply Nat.eqb_eq in Hbump.
+    assert (Hlt : forall k, In k (writes_of (nacc f) l1) -> k < nacc f).
+    { rewrite Ewr. intros k Hk. rewrite forallb_forall in Hwlt. apply Nat.ltb_lt. apply Hwlt, Hk. }
+    assert (HND : NoDup (writes_of (nacc f) l1)) by (rewrite Ewr; apply nodupb_NoDup, Hnd).
+    assert (Hall : forall i, i < nacc f -> existsb (Nat.eqb i) (writes_of (nacc f) l1) = true).
+    { rewrite Ewr. intros i Hi. rewrite forallb_forall in Hcover. apply Hcover. apply in_seq. lia. }
+    assert (Hfirst : v_first vl = negb (inited (bnd st))) by reflexivity.
+    destruct (inited (bnd st)) eqn:Ei.
+    - destruct Hpre as (Haccs & Hh & Hcells). rewrite Hfirst in Hmode. cbn [negb] in Hmode.
+      assert (Eal0 : allocs_of l1 = seq (nacc f) (nacc f - nacc f)).
+      { rewrite Eal. destruct (allocs_of l); [|discriminate]. rewrite Nat.sub_diag. reflexivity. }
+      assert (Hinv : inv_acc (nacc f) (nacc f) base X {| ms := st; snapshot := sn |}).
+      { unfold inv_acc. cbn. split; [exact Hlen|]. split; [exact Hh|]. split; [intros; lia|].
+        intros i Hi. split; [rewrite Haccs; apply nth_accs_at, Hi | apply Hcells, Hi]. }
+      destruct (exec_mid_strong f b base X l1 _ (nacc f) m' Hok1 Eal0 (le_n _) ltac:(intros; lia) HND Hlt Hinv He1)
+        as (I1 & I2 & I3 & I4 & I5).
+      repeat split; auto.
+      + intros i Hi. rewrite (I3 i Hi). unfold after_write. rewrite (Hall i Hi). reflexivity.
+      + rewrite I4, Ebu, Hbump. cbn [ms bnd]. change (Z.of_nat 1) with 1%Z. rewrite Z.mul_1_l. reflexivity.
+      + rewrite I5. cbn. rewrite Ei. reflexivity.
+    - destruct Hpre as (Hbase & HX). rewrite Hfirst in Hmode. cbn [negb] in Hmode.
+      apply andb_true_iff in Hmode. destruct Hmode as [Hal Hor]. apply list_eqb_nat_eq in Hal.
+      assert (Eal0 : allocs_of l1 = seq 0 (nacc f - 0)) by (rewrite Eal, Hal, Nat.sub_0_r; reflexivity).
+      assert (Hinv : inv_acc (nacc f) 0 base X {| ms := st; snapshot := sn |}).
+      { unfold inv_acc. cbn. split; [exact Hlen|]. split; [lia|]. split; [intros; lia|]. intros i Hi. lia. }
+      destruct (exec_mid_strong f b base X l1 _ 0 m' Hok1 Eal0 (Nat.le_0_l _) ltac:(intros; apply HX; lia) HND Hlt Hinv He1)
+        as (I1 & I2 & I3 & I4 & I5).
+      repeat split; auto.
+      + intros i Hi. rewrite (I3 i Hi). unfold after_write. rewrite (Hall i Hi). reflexivity.
+      + rewrite I4, Ebu, Hbump. cbn [ms bnd]. change (Z.of_nat 1) with 1%Z. rewrite Z.mul_1_l. reflexivity.
+      + rewrite I5, Ebo, Hor. apply orb_true_r.
+  Qed.
+
+  (* ---------------------------------------------------------------- histories and Accum *)
+  Hypothesis cplus_assoc : forall a b c, cplus a (cplus b c) = cplus (cplus a b) c.
+  Hypothesis cplus_zero_l : forall a, cplus czero a = a.
+
+  Notation process := (process C R czero cplus ccontrib).
+  Notation run_container := (run_container C R czero cplus ccontrib).
+  Notation accepted_prefix := (accepted_prefix C R czero cplus ccontrib).
+  Notation compute := (compute C O czero ccomp).
+  Notation apply_op := (apply_op C R O czero cplus ccontrib ccomp).
+  Notation run_hist := (run_hist C R O czero cplus ccontrib ccomp).
+
+  (* the state holds exactly the one-shot accumulation of [rows], and counts them *)
+  Definition reach (f : family) (st : ostate) (rows : list R) : Prop :=
+    List.length (accs (bnd st)) = nacc f
+    /\ processed (bnd st) = Z.of_nat (List.length rows)
+    /\ if inited (bnd st)
+       then exists base, accs (bnd st) = accs_at base (nacc f) /\ base + nacc f <= List.length (heap st)
+                         /\ forall i, i < nacc f -> nth (base + i) (heap st) czero = acc_of i rows
+       else rows = [].
+
+  Lemma reach_wf f st rows : reach f st rows -> wf f (bnd st) = true.
+  Proof.
+    intros (Hlen & _ & H). unfold wf. rewrite Hlen, Nat.eqb_refl. cbn [andb].
+    destruct (inited (bnd st)); [|reflexivity]. destruct H as (base & Ha & _ & _).
+    unfold all_bound. apply forallb_forall. intros k Hk. apply in_seq in Hk. unfold bound.
+    rewrite Ha, nth_accs_at by lia. reflexivity.
+  Qed.
+
+  Lemma reach_fresh f c : reach f (fresh f c) [].
+  Proof. unfold reach. cbn. rewrite repeat_length. auto. Qed.
+
+  Lemma acc_of_app k rows1 rows2 : cplus (acc_of k rows1) (cbsum k rows2) = acc_of k (rows1 ++ rows2).
+  Proof. unfold acc_of. rewrite (Accum.upd_app C R czero cplus (ccontrib k) cplus_assoc cplus_zero_l). reflexivity. Qed.
+
+  Lemma reach_update f st rows (b : batch) st' o :
+    reach f st rows -> wf_batch b -> update repaired f st b = (st', o) ->
+    reach f st' (match o with Accepted => rows ++ b_rows b | Rejected _ => rows end).
+  Proof.
+    intros Hr Hb Hu. destruct o as [|x].
+    - destruct Hr as (Hlen & Hp & Hi). destruct (inited (bnd st)) eqn:Ei.
+      + destruct Hi as (base & Ha & Hh & Hc).
+        destruct (update_accumulates f st b st' base (fun i => acc_of i rows) Hu Hlen) as (I1 & I2 & I3 & I4 & I5).
+        { rewrite Ei. auto. }
+        unfold reach. rewrite I5, I4, I1. repeat split.
+        * unfold accs_at. rewrite map_length, seq_length. reflexivity.
+        * rewrite Hp, Hb, app_length, Nat2Z.inj_add. reflexivity.
+        * exists base. split; [reflexivity|]. split; [exact I2|]. intros i Hi'. rewrite (I3 i Hi'). apply acc_of_app.
+      + subst rows.
+        destruct (update_accumulates f st b st' (List.length (heap st)) (fun _ => czero) Hu Hlen) as (I1 & I2 & I3 & I4 & I5).
+        { rewrite Ei. auto. }
+        unfold reach. rewrite I5, I4, I1. repeat split.
+        * unfold accs_at. rewrite map_length, seq_length. reflexivity.
+        * rewrite Hp, Hb. cbn. reflexivity.
+        * exists (List.length (heap st)). split; [reflexivity|]. split; [exact I2|]. intros i Hi'. rewrite (I3 i Hi'). reflexivity.
+    - assert (st' = st) by (eapply reject_preserves_state_thm; eauto using reach_wf). subst. exact Hr.
+  Qed.
+
+  Lemma reach_process f st rows (b : batch) st' o :
+    reach f st rows -> wf_batch b -> process repaired f st b = (st', o) ->
+    reach f st' (match o with Accepted => rows ++ b_rows b | Rejected _ => rows end).
+  Proof.
+    intros Hr Hb Hp. unfold Update.process in Hp. destruct (b_user_raises b).
+    - injection Hp as <- <-. exact Hr.
+    - eapply reach_update; eauto.
+  Qed.
+
+  Lemma reach_run f bs : forall st rows st' o,
+    reach f st rows -> Forall wf_batch bs -> run_container repaired f st bs = (st', o) ->
+    reach f st' (rows ++ List.concat (map (@b_rows R) (accepted_prefix repaired f st bs))).
+  Proof.
+    induction bs as [|b bs IH]; intros st rows st' o Hr Hb Hu; cbn in *.
+    - injection Hu as <- <-. rewrite app_nil_r. exact Hr.
+    - inversion Hb as [|? ? Hb1 Hb2]; subst.
+      destruct (process repaired f st b) as [st1 [|x]] eqn:Hp.
+      + pose proof (reach_process f st rows b st1 Accepted Hr Hb1 Hp) as Hr1.
+        specialize (IH st1 _ st' o Hr1 Hb2 Hu). cbn. rewrite app_assoc. exact IH.
+      + injection Hu as <- <-. pose proof (reach_process f st rows b st1 (Rejected x) Hr Hb1 Hp) as Hr1.
+        cbn. rewrite app_nil_r. exact Hr1.
+  Qed.
+
+  Lemma reach_op f st rows o :
+    reach f st rows -> wf_op o -> reach f (fst (apply_op repaired f st o)) (rows ++ rows_of_op f st o).
+  Proof.
+    intros Hr Hw. destruct o as [b|b|bs|]; cbn [Update.apply_op rows_of_op].
+    - destruct (update repaired f st b) as [s1 r] eqn:Hu. cbn [fst snd].
+      pose proof (reach_update f st rows b s1 r Hr Hw Hu) as H. destruct r; [exact H|rewrite app_nil_r; exact H].
+    - destruct (process repaired f st b) as [s1 r] eqn:Hu. cbn [fst snd].
+      pose proof (reach_process f st rows b s1 r Hr Hw Hu) as H. destruct r; [exact H|rewrite app_nil_r; exact H].
+    - destruct (run_container repaired f st bs) as [s1 r] eqn:Hu. cbn [fst].
+      exact (reach_run f bs st rows s1 r Hr Hw Hu).
+    - cbn. rewrite app_nil_r. exact Hr.
+  Qed.
+
+  Lemma reach_hist f h : forall st rows,
+    reach f st rows -> Forall wf_op h ->
+    reach f (fst (run_hist repaired f st h)) (rows ++ rows_of_hist f st h).
+  Proof.
+    induction h as [|o r IH]; intros st rows Hr Hw; cbn [rows_of_hist].
+    - cbn. rewrite app_nil_r. exact Hr.
+    - inversion Hw as [|? ? Hw1 Hw2]; subst. rewrite run_hist_cons. cbn [fst].
+      rewrite app_assoc. apply IH; [|exact Hw2]. apply reach_op; assumption.
+  Qed.
+
+  Lemma cells_of_at f st base (V : nat -> C) :
+    accs (bnd st) = accs_at base (nacc f) ->
+    (forall i, i < nacc f -> nth (base + i) (heap st) czero = V i) ->
+    cells_of C czero f st = Some (map V (seq 0 (nacc f))).
+  Proof.
+    intros Ha Hc. unfold Update.cells_of.
+    assert (H : forall ks, (forall k, In k ks -> k < nacc f) ->
+      fold_right (fun k acc => match acc, nth k (accs (bnd st)) None with
+                               | Some l, Some c => Some (nth c (heap st) czero :: l) | _, _ => None end) (Some []) ks
+      = Some (map V ks)).
+    { induction ks as [|k ks IH]; intros Hk; [reflexivity|]. cbn [fold_right map].
+      rewrite IH by (intros j Hj; apply Hk; now right).
+      rewrite Ha, nth_accs_at by (apply Hk; now left). rewrite Hc by (apply Hk; now left). reflexivity. }
+    apply H. intros k Hk. apply in_seq in Hk. lia.
+  Qed.
+
+  (* compute() on a state that holds the rows [rows]: the function of the count and of the one-shot accumulators *)
+  Lemma reach_compute f st rows :
+    reach f st rows ->
+    compute f st = match rows with [] => None | _ => Some (ccomp (Z.of_nat (List.length rows)) (one_shot f rows)) end.
+  Proof.
+    intros (Hlen & Hp & Hi). unfold Update.compute. rewrite Hp.
+    destruct (inited (bnd st)) eqn:Ei.
+    - destruct Hi as (base & Ha & Hh & Hc). rewrite (cells_of_at f st base (fun i => acc_of i rows) Ha Hc).
+      destruct rows; [reflexivity|]. cbn [List.length]. rewrite Nat2Z.inj_succ.
+      replace (Z.succ (Z.of_nat (List.length rows)) >? 0)%Z with true by (symmetry; apply Z.gtb_lt; lia).
+      reflexivity.
+    - subst rows. reflexivity.
+  Qed.
+
+  (* for every history from a fresh object: processed_traces is the number of rows of the accepted batches, and compute()
+     is the function of that count and of the ONE-SHOT accumulation (Accum.upd from zero) over exactly these rows *)
+  Theorem results_are_those_of_the_accepted_batches_thm f c h :
+    Forall wf_op h ->
+    let st := fst (run_hist repaired f (fresh f c) h) in
+    let rows := rows_of_hist f (fresh f c) h in
+    processed (bnd st) = Z.of_nat (List.length rows)
+    /\ compute f st = match rows with [] => None | _ => Some (ccomp (Z.of_nat (List.length rows)) (one_shot f rows)) end.
+  Proof.
+    intros Hw. cbv zeta. pose proof (reach_hist f h (fresh f c) [] (reach_fresh f c) Hw) as Hr. cbn [app] in Hr.
+    split; [exact (proj1 (proj2 Hr))|exact (reach_compute f _ _ Hr)].
+  Qed.
+End Link.
+
 Lemma fresh_wf_any (C : Type) f c : wf f (bnd (fresh f c : ostate C)) = true.
 Proof. unfold wf. cbn. rewrite repeat_length, Nat.eqb_refl. reflexivity. Qed.
 
